@@ -30,8 +30,10 @@ Relaxation (read-only sharing): once the last writer through path A has run - it
 the alt read, over the whole life of A's SSA value: the epoch, or the whole program when A is the bare root, whose L1 cast
 set-memory-space shares between all users - the original is up to date again, so reads through a fresh path B may be
 interleaved with later reads through A in any order, also inside loops. B is never written (an op that would end up as an
-opaque test.op drops its alt refs), B's value is made for that one op, and the bare root is used as B at most once per
-program (all bare users share one cast that is filled once).
+opaque test.op drops its alt refs) and B's value is made for that one op. Two sub-classes are counted separately because
+set-memory-space / realize-memref-casts mishandled them when they were re-admitted (proposed repairs in
+/var/tmp/c12/proposed_fix_*.diff): alt-read:chain:dead-tail (the tail chained on A leaves a cast dead in place on A's end value)
+and alt-read:bare:beside-explicit-L1-cast / alt-read:bare:repeated (the bare root is read while explicit casts of it exist).
 """
 from __future__ import annotations
 
@@ -436,7 +438,7 @@ def build(r) -> Built:
                     opn = "snax.layout_cast"
                 new_t = mtype(oshape, elt, nl, nsp)
                 new = fresh("c")
-                out.append(f'{pad}{new} = "{opn}"({cur}) : ({cur_t}) -> {new_t}')
+                out.append(f'{pad}{new} = "{opn}"({cur}) {{"c12.x"}} : ({cur_t}) -> {new_t}')
                 cur, cur_t, layout, sp = new, new_t, nl, nsp
                 nc += 1
                 b.features.add("cast:" + c[0])
@@ -476,10 +478,9 @@ def build(r) -> Built:
             return {"test": "linalg", "dart_sched": "dart_op"}.get(kind, kind)
         return kind
 
-    # set-memory-space does not give the bare root a cast of its own if an explicit L1 cast of it is in reach (any epoch): it
-    # reuses that cast, so the read would go through another epoch's cast buffer. (With a chain of >= 3 casts
-    # realize-memref-casts also leaves the cast in the middle dead IN PLACE and counts it as a reading and writing user of the
-    # first one.) The bare root is not used as the other path for such roots.
+    # Roots with an explicit L1 cast directly on them (any epoch). set-memory-space (before the repair proposed in
+    # /var/tmp/c12/proposed_fix_*.diff) routes a bare read through such a cast - another epoch's cast buffer - instead of giving it a
+    # cast of its own. The class is generated and counted (alt-read:bare:beside-explicit-L1-cast).
     l1_chain_on_root = [False] * nroots
     for ep in r["epochs"]:
         for i in range(nroots):
@@ -494,8 +495,7 @@ def build(r) -> Built:
         how = ["sub", "chain", "bare"][variant % 3]
         v2 = variant // 3
         k = v2 // 4
-        if how == "bare" and not (explicit and needs_fresh[i] and not roots[i].get("big") and not (r.get("dead") and i == 0)
-                                  and not l1_chain_on_root[i]):
+        if how == "bare" and not (explicit and needs_fresh[i] and not roots[i].get("big")):
             how = "sub"
         if how == "chain" and not (explicit and info["life"] == "epoch"):
             how = "sub"
@@ -512,16 +512,18 @@ def build(r) -> Built:
                 if c[0] == "ms":
                     sp = c[1]
             return dict(how=how, casts=cs, space=sp)
-        # a cast chained on the end of path A: exactly ONE cast that ends in L1, so that it is materialised itself. (A longer
-        # tail - also the L1 cast set-memory-space would add - leaves a dead cast in place on A's end value, which
-        # realize-memref-casts counts as a reading and writing user of A: known weakness outside this relaxation.)
-        if info["space"] == "L1":
-            if is_dyn(i):
-                return None
-            cs = [["lc", k - 1]]
-        else:
-            cs = [["ms", "L1"]]
-        return dict(how=how, casts=cs, space="L1")
+        # casts chained on the end of path A. A tail of two casts, or one that ends outside L1 (set-memory-space then adds the L1
+        # cast), leaves a cast dead IN PLACE on A's end value once the end of the tail is materialised (class chain:dead-tail).
+        other = "L3" if info["space"] == "L1" else "L1"
+        single = [["lc", k - 1]] if info["space"] == "L1" else [["ms", "L1"]]
+        cs = [single, [["ms", other]], [["lc", k - 1], ["ms", other]], [["ms", other], ["lc", k - 1]], single, [["lc", k - 1]]][v2 % 6]
+        if is_dyn(i):
+            cs = [c for c in cs if c[0] == "ms"] or [["ms", other]]
+        sp = info["space"]
+        for c in cs:
+            if c[0] == "ms":
+                sp = c[1]
+        return dict(how=how, casts=cs, space=sp, dead_tail=len(cs) >= 2 or sp != "L1")
 
     def resolve(e, s):
         """Final kind of op statement s in epoch e and, per input, the alt plan that is expressible (None = plain ref).
@@ -591,7 +593,7 @@ def build(r) -> Built:
                 nsp, opn = sp, "snax.layout_cast"
             new_t = mtype(oshape, elt, nl, nsp)
             new = fresh("c")
-            out.append(f'{pad}{new} = "{opn}"({cur}) : ({cur_t}) -> {new_t}')
+            out.append(f'{pad}{new} = "{opn}"({cur}) {{"c12.x"}} : ({cur_t}) -> {new_t}')
             cur, cur_t, layout, sp = new, new_t, nl, nsp
             nc += 1
         return cur, cur_t, nc, sp, layout
@@ -603,12 +605,10 @@ def build(r) -> Built:
         for x, pl in zip(ins, plans):
             i = ref_root(x)
             ok = pl is not None and alt_ok(e, t, i)
-            if ok and pl["how"] == "bare":
-                if root_val[i][0] is not None and bare_used[i]:
-                    pl = alt_plan(e, i, x[2] - (x[2] % 3))  # the bare root has been read once: take a subview instead
-                    ok = pl is not None and pl["how"] == "sub"
-                elif root_val[i][0] is not None:
-                    bare_used[i] = True
+            if ok and pl["how"] == "bare" and root_val[i][0] is not None:
+                if bare_used[i]:
+                    b.features.add("alt-read:bare:repeated")
+                bare_used[i] = True
             chosen.append(pl if ok else None)
         honoured = any(c is not None for c in chosen)
         # the kind is fixed by the spaces of the operands really used (neither variant is an opaque op if an alt ref survives)
@@ -626,6 +626,10 @@ def build(r) -> Built:
                 alts.append((vals[i][0], gstmt[0]))
                 b.alt_reads += 1
                 b.features.add("alt-read:" + c["how"] + (":loop" if in_loop else ""))
+                if c.get("dead_tail"):
+                    b.features.add("alt-read:chain:dead-tail")
+                if c["how"] == "bare" and l1_chain_on_root[i]:
+                    b.features.add("alt-read:bare:beside-explicit-L1-cast")
         ov_ = [vals[ref_root(v)][:3] for v in outs]
         for v in outs:
             a_writes.setdefault(vals[ref_root(v)][0], []).append(gstmt[0])
@@ -721,8 +725,8 @@ def build(r) -> Built:
         if not roots[0].get("big") and nm is not None and not is_dyn(0):
             t0 = mtype(shape, elt, None, sp)
             d1 = fresh("d")
-            top_paths.append(f'    {d1} = "memref.memory_space_cast"({nm}) : ({t0}) -> {mtype(shape, elt, None, "L1")}')
-            top_paths.append(f'    {fresh("d")} = "snax.layout_cast"({d1}) : ({mtype(shape, elt, None, "L1")}) -> {mtype(shape, elt, lay_texts[0], "L1")}')
+            top_paths.append(f'    {d1} = "memref.memory_space_cast"({nm}) {{"c12.x"}} : ({t0}) -> {mtype(shape, elt, None, "L1")}')
+            top_paths.append(f'    {fresh("d")} = "snax.layout_cast"({d1}) {{"c12.x"}} : ({mtype(shape, elt, None, "L1")}) -> {mtype(shape, elt, lay_texts[0], "L1")}')
             b.features.add("dead-casts")
     for e_, ep in enumerate(r["epochs"]):
         paths = ep["paths"]
